@@ -41,15 +41,22 @@ func refsPointingAt(refs []RefRecord, oid []byte) []RefRecord {
 }
 
 // Harness_C11_table: single tables, indexed and unindexed.
-// bounds: 2..3 refs (thorough 2..4) named a,b,c,d; two object ids X,Y symbolic in their first 2 bytes (X != Y, so the abbreviated id length is the solver's choice) plus a fixed id; each ref's value and peeled value chosen among {X,Y,fixed,absent/deletion}; query X, Y or an id occurring nowhere; min update index 5 (so relative/absolute indices differ); Config: BlockSize 96 x Unaligned x SkipIndexObjects
+// bounds: 2..3 refs (thorough 2..4) named a,b,c,d; two object ids X,Y symbolic in their first 2 bytes, or (SHA-256, block size 128) in their last 2 bytes (X != Y, so the abbreviated id length is the solver's choice: 1..2 or 31..32) plus a fixed id; each ref's value and peeled value chosen among {X,Y,fixed,absent/deletion}; query X, Y or an id occurring nowhere; min update index 5 (so relative/absolute indices differ); Config: BlockSize 96 x Unaligned x SkipIndexObjects
 // covers: done
 func Harness_C11_table() {
 	cfg := Config{BlockSize: 96, Unaligned: VerifChoose(2) == 1, SkipIndexObjects: VerifChoose(2) == 1, RestartInterval: 1}
-	x, y, z, f := make([]byte, 20), make([]byte, 20), make([]byte, 20), make([]byte, 20)
-	for i := 2; i < 20; i++ {
+	hs, s0, s1 := 20, 0, 1
+	if VerifChoose(2) == 1 {
+		// SHA-256 ids that differ only in their last two bytes: the abbreviation has to be (nearly) the whole id
+		cfg.HashID = SHA256ID
+		cfg.BlockSize = 128
+		hs, s0, s1 = 32, 30, 31
+	}
+	x, y, z, f := make([]byte, hs), make([]byte, hs), make([]byte, hs), make([]byte, hs)
+	for i := 0; i < hs; i++ {
 		x[i], y[i], z[i], f[i] = 0x77, 0x77, 0x77, 0x70
 	}
-	x[0], x[1], y[0], y[1], z[0], z[1] = VerifU8(), VerifU8(), VerifU8(), VerifU8(), VerifU8(), VerifU8()
+	x[s0], x[s1], y[s0], y[s1], z[s0], z[s1] = VerifU8(), VerifU8(), VerifU8(), VerifU8(), VerifU8(), VerifU8()
 	VerifAssume(!bytes.Equal(x, y))
 	VerifAssume(!bytes.Equal(x, z))
 	VerifAssume(!bytes.Equal(y, z))
